@@ -33,7 +33,7 @@ STUB = ['Verilog side: dsim/vsim (IEEE 1364-2005 subset event simulator written 
 ASSUMPTIONS = ['vsim reading of IEEE 1364-2005 sizing, x-propagation and scheduling (see dsim/vsim/README.md, selftest)',
                'single clock domain; divisors of Div/Mod are OR-ed with 1 (division by zero is documented as nondeterministic)',
                'designs containing rotate blocks are not emittable (generator refuses) and are kept out']
-PROBES = ['generated', 'elaborated', 'shared_module_reused', 'reg_reset_value', 'memory_body', 'race_probe', 'hierarchy', 'wide_gt_64', 'transpiled_block']
+PROBES = ['generated_after_simulation', 'generated', 'elaborated', 'shared_module_reused', 'reg_reset_value', 'memory_body', 'race_probe', 'hierarchy', 'wide_gt_64', 'transpiled_block']
 
 
 def emittable_kinds():
@@ -67,8 +67,10 @@ def gen(rs, tier, index):
         vec = netlist.gen_vector(sr, d['inputs'], prev)
         prev = vec
         steps.append({'vec': vec})
+    # generation after simulation: the text must still describe the circuit from power-up
+    presim = [netlist.gen_vector(sr, d['inputs']) for _ in range(sr.choice([0, 0, 0, 1, 3]))]
     return {'design': d, 'order': order, 'perm': rs.sub('perm') if rng.random() < 0.4 else None,
-            'steps': steps, 'vseed': rs.sub('vsched')}
+            'steps': steps, 'vseed': rs.sub('vsched'), 'presim': presim}
 
 
 SHARED_KINDS = ('Add', 'BufEnable')      # emitted once per structureName(), body uses parent-scope wire names
@@ -149,9 +151,24 @@ def cosim(scn, log, st, zero_powerup=False, collect_all=False):
         st.probe('skipped_open_finding_domain')      # KF-C01-1: replayed from its reproducer instead
         log.add('skipped: shared-module port alias')
         return None
+    if scn.get('presim'):
+        # the circuit the text is generated from has already been simulated; the reference side is a second,
+        # never-simulated instance of the same description stepped from power-up
+        with quiet():
+            psim = b.hw.getSimulator()
+            for vec in scn['presim']:
+                b.set_inputs(vec)
+                psim.clk(1)
+        st.probe('generated_after_simulation')
+        gen_from = b
+        b = netlist.Built(d).build(scn['order'])
+        if scn.get('perm') is not None:
+            seams.perm_children(b.hw, random.Random(scn['perm']))
+    else:
+        gen_from = b
     try:
         with quiet():
-            text = py4hw.VerilogGenerator(b.dut).getVerilogForHierarchy()
+            text = py4hw.VerilogGenerator(gen_from.dut).getVerilogForHierarchy()
     except Exception as e:
         st.probe('generation_refused')
         log.add('generation refused', type(e).__name__)
@@ -283,6 +300,8 @@ def shrink(scn):
     yield from shrink_list(scn, 'steps', 1)
     if scn.get('perm') is not None:
         yield dict(scn, perm=None)
+    if scn.get('presim'):
+        yield dict(scn, presim=[])
     d = scn['design']
     ids = [n['id'] for n in d['nodes']]
     if len(ids) > 1:
